@@ -191,6 +191,10 @@ resp0_ctx_send(void *arg, nni_aio *aio)
 
 	if (!p->busy) {
 		p->busy = true;
+		if (p->id == s->ctx.pipe_id) {
+			// the socket's own pending survey shares this pipe
+			nni_pollable_clear(&s->writable);
+		}
 		len     = nni_msg_len(msg);
 		nni_aio_set_msg(&p->aio_send, msg);
 		nni_pipe_send(p->npipe, &p->aio_send);
@@ -461,7 +465,12 @@ resp0_ctx_recv(void *arg, nni_aio *aio)
 	ctx->btrace_len = len;
 	ctx->pipe_id    = p->id;
 	if (ctx == &s->ctx) {
-		nni_pollable_raise(&s->writable);
+		// sendable only once the surveyor's pipe is idle
+		if (p->busy) {
+			nni_pollable_clear(&s->writable);
+		} else {
+			nni_pollable_raise(&s->writable);
+		}
 	}
 	nni_mtx_unlock(&s->mtx);
 
@@ -551,8 +560,12 @@ resp0_pipe_recv_cb(void *arg)
 	nni_msg_header_clear(msg);
 	ctx->pipe_id = p->id;
 
-	if ((ctx == &s->ctx) && (!p->busy)) {
-		nni_pollable_raise(&s->writable);
+	if (ctx == &s->ctx) {
+		if (p->busy) {
+			nni_pollable_clear(&s->writable);
+		} else {
+			nni_pollable_raise(&s->writable);
+		}
 	}
 	nni_mtx_unlock(&s->mtx);
 
